@@ -10,7 +10,7 @@ I128MAX = (1 << 127) - 1
 
 
 def container(kind, ln):
-    return [10 + i for i in range(ln)] if kind == 'arr' else CHARS[:ln]
+    return [10 + i for i in range(ln)] if kind == 'arr' else [CHARS[i % len(CHARS)] for i in range(ln)]
 
 
 def show(kind, items):
